@@ -612,4 +612,50 @@ def check_scope(ctx, rep, scope):
     n += check_eq_methods(ctx, rep, [classes[k] for k in sorted(classes)])
     n += check_lookup_keys(ctx, rep, funcs)
     n += check_input_unmodified(ctx, rep, funcs)
+    n += check_index_by_value(ctx, rep, funcs)
+    return n
+
+
+def check_index_by_value(ctx, rep, funcs, rule=RULE + '.index'):
+    """``seq.index(x)`` for the loop variable x of a loop over the same seq yields the FIRST position of an equal
+    element: when the sequence may hold an element twice (a word, a right-hand side of a rule, a trace) the positions of
+    the later occurrences are never produced."""
+    from ..types import is_kind
+    n = 0
+    for f in funcs:
+        loops = []
+        for s in walk_no_nested(f.node):
+            if isinstance(s, ast.For) and isinstance(s.target, ast.Name) and isinstance(s.iter, ast.Name):
+                loops.append((s.target.id, s.iter.id, s))
+            if isinstance(s, (ast.ListComp, ast.SetComp, ast.GeneratorExp, ast.DictComp)):
+                for g in s.generators:
+                    if isinstance(g.target, ast.Name) and isinstance(g.iter, ast.Name):
+                        loops.append((g.target.id, g.iter.id, s))
+        if not loops:
+            continue
+        for (var, seq, scope_node) in loops:
+            for c in ast.walk(scope_node):
+                if isinstance(c, ast.Call) and isinstance(c.func, ast.Attribute) and c.func.attr == 'index' and isinstance(c.func.value, ast.Name) and c.func.value.id == seq \
+                        and len(c.args) == 1 and isinstance(c.args[0], ast.Name) and c.args[0].id == var:
+                    try:
+                        t = ctx.env(f).type_of(c.func.value)
+                    except Exception:
+                        t = None
+                    if t is None or not is_kind(t, 'list', 'tuple', 'str'):
+                        continue
+                    # a local list made from a set has no duplicates
+                    defs = [st.value for st in walk_no_nested(f.node) if isinstance(st, ast.Assign) and len(st.targets) == 1 and isinstance(st.targets[0], ast.Name) and st.targets[0].id == seq]
+                    from_set = False
+                    for d in defs:
+                        if isinstance(d, ast.Call) and isinstance(d.func, ast.Name) and d.func.id in ('sorted', 'list', 'tuple') and d.args:
+                            try:
+                                td = ctx.env(f).type_of(d.args[0])
+                            except Exception:
+                                td = None
+                            if td is not None and is_kind(td, 'set', 'frozenset', 'dict'):
+                                from_set = True
+                    if defs and from_set:
+                        continue
+                    n += 1
+                    rep.violates(rule, f, c, '{0}.index({1}) inside the loop over {0}: for an element that occurs twice in {0} this is the position of its FIRST occurrence both times, so the later positions are never visited (e.g. the second A in the right-hand side A S A)'.format(seq, var))
     return n
